@@ -16,7 +16,7 @@ func init() { register("C19", c19) }
 func c19(c *eng.Ctx, r *eng.Report) {
 	r.Explain = "Structural invariants of the group chain store (core/groupchain.go) decided on SSA: " +
 		"R19.1 save and remove are inverses key family by key family — the group record, the last-group pointer, the height index entry of exactly the added/removed group (index = count before the addition = count-1 before the removal) and the count; both update the in-memory count and last group; " +
-		"R19.2 every caller of save (AddGroup today; start-up excepted) saves only under the chain lock, after the parent exists and the predecessor equals the current last group; " +
+		"R19.2 every caller of save (AddGroup today; start-up excepted) saves only under the chain lock, after the parent exists and the predecessor equals the current last group, and only for an id the store does not hold yet (groups.Has(group.Id) false on every path to save); " +
 		"R19.3 start-up reloads exactly the keys save writes and height lookups use the same key derivation; " +
 		"R19.4 count, lastGroup and the groups store are written only by save, remove and initGroupChain; " +
 		"R19.5 every caller of remove walks from the current top downwards (remove is only correct for the last group) inside one critical section of the chain lock, with the starting height read inside it; " +
@@ -309,7 +309,13 @@ func c19AddGroup(c *eng.Ctx, r *eng.Report) {
 			continue
 		}
 		okParent, okPre, okLock := false, false, false
+		okNew := false
 		for _, cd := range eng.CondsAt(sv) {
+			if ex, isE := cd.V.(*ssa.Extract); isE && !cd.True {
+				if call, isC := ex.Tuple.(*ssa.Call); isC && call.Call.IsInvoke() && call.Call.Method.Name() == "Has" && strings.HasSuffix(eng.Desc(call.Call.Args[0]), ".Id") && !strings.Contains(eng.Desc(call.Call.Args[0]), "lastGroup") {
+					okNew = true
+				}
+			}
 			if ex, isE := cd.V.(*ssa.Extract); isE && cd.True {
 				if call, isC := ex.Tuple.(*ssa.Call); isC && call.Call.IsInvoke() && call.Call.Method.Name() == "Has" && strings.HasSuffix(eng.Desc(call.Call.Args[0]), ".Header.Parent") {
 					okParent = true
@@ -330,6 +336,8 @@ func c19AddGroup(c *eng.Ctx, r *eng.Report) {
 			}
 		}
 		name := strings.TrimPrefix(eng.FuncName(fn), "(*core.groupChain).")
+		r.Check(okNew, rule, name+":not-yet-listed", c.Pos(sv.Pos()), "save only for an id the store does not hold yet (groups.Has(group.Id) == false on every path)",
+			eng.FuncName(fn)+" can save a group whose id is already stored: the test `groups.Has(group.Id)` is not in force on every path to save — a group announced again with the current last group as its predecessor is appended a second time: count and height index grow, the id record is overwritten with a new height, and the predecessor list contains the same id twice")
 		r.Check(okParent && okPre && okLock, rule, name+":guards", c.Pos(sv.Pos()), "save only under chain.lock, with the parent present and PreGroup == lastGroup.Id",
 			fmt.Sprintf("%s can save a group that does not extend the list (parent exists=%v, predecessor == last group=%v, under lock=%v): count and height index grow while the predecessor list does not, or two additions interleave", eng.FuncName(fn), okParent, okPre, okLock))
 	}
